@@ -1,13 +1,13 @@
 #!/bin/sh
 # usage: trymut.sh <patch.diff> <prop>... : applies the patch to /repo, runs the baseline suite and the quick checks, reverts.
 P=$1; shift
-cd /repo || exit 2
+cd ${MUTREPO:-/repo} || exit 2
 if [ -n "$(git status --porcelain --untracked-files=no)" ]; then echo "repo dirty"; exit 2; fi
 git apply "$P" || { echo "patch does not apply"; exit 2; }
 if [ -z "$SKIP_BASELINE" ]; then
   echo "--- baseline suite with the change:"; cargo test --workspace --no-fail-fast --offline 2>&1 | grep -E "^test result|FAILED|^error" | sort | uniq -c
 fi
 for p in "$@"; do
-  echo "--- check $p ${TIER:-quick}"; /verif/check $p ${TIER:-quick} 2>&1 | grep -vE "^KNOWN-FINDING" | head -${LINES_SHOWN:-4} | cut -c1-420; echo "exit=$?"
+  echo "--- check $p ${TIER:-quick}"; ${MUTCHECK:-/verif/check} $p ${TIER:-quick} 2>&1 | grep -vE "^KNOWN-FINDING" | head -${LINES_SHOWN:-4} | cut -c1-420; echo "exit=$?"
 done
 git checkout -- . ; git status --porcelain --untracked-files=no
